@@ -7,9 +7,10 @@ Strings are `List Char` (one `Char` per byte; the driver maps bytes 0..255 to co
 `md5 : Str → Str` (32 hex characters) is a parameter everywhere.
 
 Quirks of the code that the model keeps on purpose:
-* both regexps use `[^ ]*`, which also matches `\n`: the unit of `rewriteManifest` and of
-  `PortableDataHash` is the *space*-delimited token, so a block locator that ends a line forms one
-  token with the newline and the stream name that follow it;
+* `PortableDataHash`'s regexps use `[^ ]*`, which also matches `\n`: its unit is the
+  *space*-delimited token, so a block locator that ends a line forms one token with the newline
+  and the stream name that follow it (`rewriteManifest` had the same quirk until fix d80c6cd; it
+  now stops at the newline);
 * `PortableDataHash` cuts a token that begins `␠[0-9a-f]{32}+digits` down to that prefix whatever
   follows the digits (hints, junk, a newline and the next stream name);
 * `rewriteManifest` replaces `+A` in every token that begins `␠[0-9a-f]{32}+` (size not required);
@@ -67,11 +68,21 @@ def replaceSig (id : Str) : Str → Str
     if c = '+' ∧ d = 'A' then '+' :: 'R' :: (id ++ '-' :: replaceSig id rest)
     else c :: replaceSig id (d :: rest)
 
-def rewriteTok (id : Str) (t : Str) : Str := if locPrefix t then replaceSig id t else t
+def notNL (c : Char) : Bool := c != '\n'
 
-/-- `regexp(" [0-9a-f]{32}\+[^ ]*").ReplaceAllStringFunc(mt, replace +A)`: a match starts at a space
-and runs to the next space, so the matches are exactly the space-delimited tokens after the first
-that begin with 32 lowercase hex digits and a `+`. -/
+/-- the part of a space-delimited token up to its first newline / from its first newline on -/
+def linePart (t : Str) : Str := t.takeWhile notNL
+def restPart (t : Str) : Str := t.dropWhile notNL
+
+/-- one regexp match: `[^ \n]*` stops at the first newline, so only the part of the token before
+its first newline is subject to the replacement (fix d80c6cd; before it the whole token was) -/
+def rewriteTok (id : Str) (t : Str) : Str :=
+  if locPrefix t then replaceSig id (linePart t) ++ restPart t else t
+
+/-- `regexp(" [0-9a-f]{32}\+[^ \n]*").ReplaceAllStringFunc(mt, replace +A)`: a match starts at a
+space and runs to the next space or newline, so the matches are exactly the line parts of the
+space-delimited tokens after the first that begin with 32 lowercase hex digits and a `+` (what
+follows a newline inside such a token contains no space, so no further match starts there). -/
 def rewriteManifest (mt id : Str) : Str :=
   joinWith ' ' (mapTail (rewriteTok id) (splitOn ' ' mt))
 
